@@ -3,6 +3,7 @@ package interpreter
 import (
 	"github.com/ah-naf/borno/ast"
 	"github.com/ah-naf/borno/environment"
+	"github.com/ah-naf/borno/token"
 	"github.com/ah-naf/borno/utils"
 )
 
@@ -36,8 +37,14 @@ func (f *Function) Call(i *Interpreter, arguments []interface{}) (interface{}, e
 		if signal.Type == ControlFlowReturn {
 			return signal.Value, nil
 		}
-		if signal.Type != ControlFlowNone {
-			return nil, nil // You can later add support for return values.
+		if signal.Type == ControlFlowBreak {
+			// no loop of this function encloses it: as stray as at top level
+			utils.RuntimeError(token.Token{Line: signal.LineNumber}, "Unexpected 'break' outside of loop.")
+			return nil, nil
+		}
+		if signal.Type == ControlFlowContinue {
+			utils.RuntimeError(token.Token{Line: signal.LineNumber}, "Unexpected 'continue' outside of loop.")
+			return nil, nil
 		}
 		if utils.HadRuntimeError {
 			return nil, nil // Stop the body after a runtime error
